@@ -195,6 +195,78 @@ fn main() {
             }
             println!("ok trait forms");
         }
+        "structural" => {
+            // Replay of the structural obligations (opaque rings in the solver): the same
+            // statements on a concrete polygon with two holes, every combination of ring windings,
+            // both directions, and f failing at every position.
+            use geo::orient::{Direction, Orient};
+            use geo::winding_order::Winding;
+            use geo::{CoordsIter, MapCoords};
+            use geo_types::{LineString, Polygon};
+            let ring = |pts: &[(f64, f64)], rev: bool| -> LineString<f64> {
+                let mut v: Vec<(f64, f64)> = pts.to_vec();
+                if rev {
+                    v.reverse();
+                }
+                v.into()
+            };
+            let shell = [(0.0, 0.0), (10.0, 0.0), (10.0, 10.0), (0.0, 10.0), (0.0, 0.0)];
+            let h1 = [(1.0, 1.0), (3.0, 1.0), (3.0, 3.0), (1.0, 3.0), (1.0, 1.0)];
+            let h2 = [(5.0, 5.0), (8.0, 5.0), (8.0, 6.0), (5.0, 6.0), (5.0, 5.0)];
+            let same_ring = |a: &LineString<f64>, b: &LineString<f64>| {
+                let mut r = b.clone();
+                r.0.reverse();
+                a == b || *a == r
+            };
+            for mask in 0..8u8 {
+                let p = Polygon::new(ring(&shell, mask & 1 != 0), vec![ring(&h1, mask & 2 != 0), ring(&h2, mask & 4 != 0)]);
+                for (dir, ext_ccw) in [(Direction::Default, true), (Direction::Reversed, false)] {
+                    let o = p.orient(dir);
+                    let ok = o.interiors().len() == 2
+                        && same_ring(o.exterior(), p.exterior())
+                        && same_ring(&o.interiors()[0], &p.interiors()[0])
+                        && same_ring(&o.interiors()[1], &p.interiors()[1])
+                        && o.exterior().is_ccw() == ext_ccw
+                        && o.interiors().iter().all(|h| h.is_ccw() != ext_ccw);
+                    if !ok {
+                        fail(format!("orient({:?}) of windings mask {mask}: {:?}", dir, o));
+                    }
+                }
+            }
+            let p = Polygon::new(ring(&shell, false), vec![ring(&h1, true), ring(&h2, false)]);
+            let f = |c: Coord<f64>| coord! {x: c.y + 1.0, y: c.x - 2.0};
+            let m = p.map_coords(f);
+            let want: Vec<Coord<f64>> = p.coords_iter().map(f).collect();
+            if m.coords_iter().collect::<Vec<_>>() != want || m.interiors().len() != 2 {
+                fail("Polygon::map_coords is not f applied ring by ring".to_string());
+            }
+            let n = p.coords_count();
+            for k in 0..=n {
+                let calls = std::cell::Cell::new(0usize);
+                let r: Result<Polygon<f64>, usize> = p.try_map_coords(|c| {
+                    let i = calls.get();
+                    calls.set(i + 1);
+                    if i == k {
+                        Err(i)
+                    } else {
+                        Ok(f(c))
+                    }
+                });
+                match r {
+                    Ok(q) => {
+                        if k < n || q != m {
+                            fail(format!("try_map_coords returned Ok although f failed at coordinate {k} (or a wrong polygon)"));
+                        }
+                    }
+                    Err(e) => {
+                        if k >= n || e != k || calls.get() != k + 1 {
+                            fail(format!("try_map_coords: error {e} / {} calls for a failure at coordinate {k}", calls.get()));
+                        }
+                    }
+                }
+            }
+            println!("ok structural");
+        }
         _ => {
             eprintln!("unknown op {op}");
             std::process::exit(4);
